@@ -127,6 +127,21 @@ func checkTwoSpenders(sym bool, overdraft bool) {
 	verifReach("end")
 }
 
+// C06 on a pair that has no volumes row yet: two writers overdraw a never-used account within an allowance
+func checkTwoSpendersFreshPair(sym bool) {
+	db := concSetup(sym, nil)
+	db.freshPairs = true
+	x1, x2 := amt(sym, "w1.amount", "15"), amt(sym, "w2.amount", "12")
+	allowance := amt(sym, "allowance", "20")
+	r1, r2 := runTwo(db, spendOverdraft("fresh", "c", x1, allowance), spendOverdraft("fresh", "d", x2, allowance))
+	post := balanceOf(db, "fresh", "USD/2")
+	floor := new(big.Int).Neg(allowance)
+	verifAssert("C06:balance-of-a-never-used-account-never-below-the-allowance-under-any-interleaving", post.Cmp(floor) >= 0)
+	want := new(big.Int).Neg(new(big.Int).Add(applied(r1, x1), applied(r2, x2)))
+	verifAssert("C02:volumes-equal-the-fold-of-the-committed-writes", post.Cmp(want) == 0)
+	verifReach("end")
+}
+
 // C06: a spender races with a non-forced revert of the transfer that funded the spender's account
 func checkSpendVsRevert(sym bool) {
 	db := concSetup(sym, nil)
@@ -266,6 +281,8 @@ func Harness_CONC_two_spenders()            { checkTwoSpenders(false, false) }
 func Harness_CONC_two_spenders_overdraft()  { checkTwoSpenders(false, true) }
 func Harness_CONCS_two_spenders()           { checkTwoSpenders(true, false) }
 func Harness_CONCS_two_spenders_overdraft() { checkTwoSpenders(true, true) }
+func Harness_CONC_two_spenders_fresh_pair()  { checkTwoSpendersFreshPair(false) }
+func Harness_CONCS_two_spenders_fresh_pair() { checkTwoSpendersFreshPair(true) }
 func Harness_CONC_spend_vs_revert()         { checkSpendVsRevert(false) }
 func Harness_CONCS_spend_vs_revert()        { checkSpendVsRevert(true) }
 func Harness_CONC_two_reverts()             { checkTwoReverts(false) }
